@@ -1454,28 +1454,35 @@ POST["accounting"] = _post_accounting
 def install_draws(mon):
     from nessai.proposal.flowproposal import FlowProposal
 
-    limit = int(mon.job.get("draw_batches_limit", 10000))
-    st = {"batches": 0, "max": 0, "populations": 0}
+    # bound on the latent draws of ONE pool population.  nessai's own cap for
+    # the accumulate-weights loop is 1e6 proposals (+ one batch); the
+    # non-accumulating loop has no cap.  2e6 draws is far above the nominal
+    # cost (poolsize / acceptance, typically 1e2-1e5).
+    limit = int(mon.job.get("draw_limit", 2_000_000))
+    st = {"batches": 0, "draws": 0, "max": 0, "populations": 0}
     mon.data["draws"] = st
 
     def before_populate(self, *a, **k):
         st["batches"] = 0
+        st["draws"] = 0
         st["populations"] += 1
 
     def after_populate(self, _t, _r):
-        st["max"] = max(st["max"], st["batches"])
+        st["max"] = max(st["max"], st["draws"])
 
     def before_draw(self, n):
         st["batches"] += 1
-        if st["batches"] > limit:
-            st["max"] = st["batches"]
+        st["draws"] += int(n)
+        if st["draws"] > limit:
+            st["max"] = st["draws"]
             mon.flags["population_draw_bound"] = True
             lt = (getattr(self, "flow_config", None) or {}).get(
                 "linear_transform")
             mon.data["draw_bound"] = {
                 "proposal": type(self).__name__ + (
                     f":linear_transform={lt}" if lt else ""),
-                "batches": st["batches"], "drawsize": int(self.drawsize)}
+                "batches": st["batches"], "draws": st["draws"],
+                "drawsize": int(self.drawsize)}
             mon.flush()
             os._exit(21)
 
